@@ -1,10 +1,13 @@
 #!/bin/bash
 # try_seed.sh <patch.diff> <tier> <prop> [<prop>...] : apply to /repo, run checks, always revert.
+# Evidence files are saved and restored around the run (evidence must come from the unchanged tree).
 p=$1; tier=$2; shift 2
 cd /repo && git diff --quiet || { echo "/repo dirty"; exit 2; }
-git -C /repo apply $p || exit 2
+bk=$(mktemp -d /tmp/evbk.XXXX); cp -a /verif/evidence/. $bk/ 2>/dev/null
+git -C /repo apply $p || { rm -rf $bk; exit 2; }
 for c in "$@"; do
   out=$(cd /verif && VERIF_SEED=${VERIF_SEED:-0} ./check $c $tier 2>&1); rc=$?
-  echo "== $c $tier exit=$rc"; echo "$out" | grep -E "VIOLATION|signature=|input=|HARNESS|KNOWN" | head -8; echo "$out" | tail -3 | head -1
+  echo "== $c $tier exit=$rc"; echo "$out" | grep -E "VIOLATION|signature=|input=|HARNESS|KNOWN" | head -${LINES_MAX:-8}; echo "$out" | grep -E "^C[0-9]+ (quick|thorough)" | head -1
 done
 git -C /repo checkout -- . ; git -C /repo status --short | head -3
+rm -f /verif/evidence/*.json; cp -a $bk/. /verif/evidence/; rm -rf $bk; rm -f /verif/replays/*.json
